@@ -34,6 +34,11 @@ pub fn senders(cfg: &Cfg, l: &[Act]) -> Vec<Act> {
                 v.push(a.with_sender(s));
             }
         }
+        // an account whose name differs from the legitimate sender's only in letter case is another account
+        let up = a.sender.to_uppercase();
+        if up != a.sender {
+            v.push(a.with_sender(&up));
+        }
     }
     dedupe(v)
 }
@@ -84,14 +89,27 @@ pub fn respell(p: &str) -> Vec<String> {
         v.push(format!("{p}.00"));
     }
     v.push(format!("0{p}"));
+    // as many decimal places as a 96-bit decimal can carry (the mantissa of "2.000...0" is 2 x 10^28)
+    if p.len() == 1 && p.as_bytes()[0].is_ascii_digit() && p.as_bytes()[0] <= b'7' && p != "0" {
+        v.push(format!("{p}.{}", "0".repeat(28)));
+    }
     v
 }
 
 /// every L match request with its price written in other, numerically equal ways
 pub fn match_respell(l: &[Act]) -> Vec<Act> {
     let mut v = vec![];
+    // a price strictly between the lowest and the highest whole-number price of the alphabet
+    let whole: BTreeSet<u128> = l.iter().filter_map(|a| if let Req::Match { price, .. } = &a.req { price.parse::<u128>().ok() } else { None }).collect();
+    let between: Option<String> = match (whole.iter().next(), whole.iter().next_back()) {
+        (Some(lo), Some(hi)) if hi > lo => Some(if hi - lo >= 2 { (lo + 1).to_string() } else { format!("{lo}.5") }),
+        _ => None,
+    };
     for a in l {
         if let Req::Match { ask_id, bid_id, price, size } = &a.req {
+            if let Some(b) = &between {
+                v.push(Act::new(&a.sender, vec![], Req::Match { ask_id: ask_id.clone(), bid_id: bid_id.clone(), price: b.clone(), size: *size }));
+            }
             for p in respell(price) {
                 v.push(Act::new(&a.sender, vec![], Req::Match { ask_id: ask_id.clone(), bid_id: bid_id.clone(), price: p, size: *size }));
             }
@@ -284,7 +302,8 @@ pub fn approvals(cfg: &Cfg, m: &Menu) -> Vec<Act> {
     let r = &cfg.roles;
     let sizes = all_sizes(m, cfg.increment);
     let mut v = vec![];
-    let senders = [r.get("approver"), r.get("approver2"), r.get("exec"), r.get("seller1"), r.get("stranger")];
+    let upper = r.get("approver").to_uppercase();
+    let senders = [r.get("approver"), r.get("approver2"), r.get("exec"), r.get("seller1"), r.get("stranger"), upper.as_str()];
     let base_restricted = cfg.restricted(&cfg.base);
     for slot in 0..m.ask_slots {
         let id = ASK_IDS[slot];
@@ -353,6 +372,8 @@ pub enum QsMode {
     Exact,
     Plus1,
     Minus1,
+    /// the largest value a 96-bit decimal holds (what a saturating product would give)
+    DecimalMax,
 }
 
 #[derive(Clone, Debug)]
@@ -439,8 +460,10 @@ impl BidDraft {
             QsMode::Exact => total,
             QsMode::Plus1 => total + 1,
             QsMode::Minus1 => total.saturating_sub(1),
+            QsMode::DecimalMax => 79_228_162_514_264_337_593_543_950_335,
         };
-        let due = fee_due(cfg.bid_fee.as_ref().map(|f| f.0.as_str()), total);
+        // (a request built around a saturated total states the fee of that amount)
+        let due = fee_due(cfg.bid_fee.as_ref().map(|f| f.0.as_str()), if matches!(self.qs, QsMode::DecimalMax) { qs } else { total });
         let fee: Option<(String, u128)> = match self.fee {
             FeeMode::Exact => {
                 if due > 0 {
@@ -578,7 +601,7 @@ fn bid_devs(cfg: &Cfg, d: &BidDraft, inc: u128) -> Vec<(u8, BidDev)> {
         let s = cfg.roles.0.get(s).cloned().unwrap_or(s.to_string());
         v.push((6, Box::new(move |x: &mut BidDraft| x.sender = s.clone())));
     }
-    for q in [QsMode::Plus1, QsMode::Minus1] {
+    for q in [QsMode::Plus1, QsMode::Minus1, QsMode::DecimalMax] {
         v.push((7, Box::new(move |x: &mut BidDraft| x.qs = q)));
     }
     for f in [FeeMode::Absent, FeeMode::Plus1, FeeMode::Minus1, FeeMode::WrongDenom, FeeMode::ExplicitValue, FeeMode::OtherQuote] {
@@ -740,6 +763,11 @@ pub fn modify_field_alts(cfg: &Cfg) -> Vec<Vec<(u8, Modify)>> {
             (Some(rate.clone()), None),
             (None, Some(acct.clone())),
             (Some("abc".to_string()), Some(acct.clone())),
+            // the same rate in spellings a decimal would not print itself in, and with more places than 28
+            (Some(format!("+{rate}")), Some(acct.clone())),
+            (Some(rate.trim_start_matches('0').to_string()), Some(acct.clone())),
+            (Some(format!("0{rate}")), Some("otheracct".to_string())),
+            (Some(format!("{rate}{}", "0".repeat(30))), Some(acct.clone())),
             (Some(rate.clone()), Some("X".to_string())),
             (Some("".to_string()), Some(acct.clone())),
             (Some(rate.clone()), Some("".to_string())),
